@@ -52,6 +52,12 @@ def gen_arith(c):
                 put({"op": "modp_mont_mul", "a": i2b(x), "b": i2b(y)}, grp="z", _w=("mont_mul", x, y, m))
             else:
                 put({"op": "modn_mul", "a": i2b(x), "b": i2b(y)}, grp="z", _w=("mul", x, y, m))
+        if tag == "modp":        # Montgomery products with a tiny true value (the slice just above the modulus before the final correction)
+            for s_small in (0, 1, 2, (1 << 64) - 1, 1 << 64, (1 << 96) - (1 << 64), 1 << 96, (1 << 128) - 1, 1 << 192):
+                xx = rng.randrange(2, m)
+                a_m, b_m = xx * R256 % m, pow(xx, -1, m) * s_small % m
+                put({"op": "modp_mont_mul", "a": i2b(a_m), "b": i2b(b_m)}, grp="z", _w=("mont_mul", a_m, b_m, m))
+            put({"op": "modp_mont_mul", "a": i2b((m - 1) * R256 % m), "b": i2b(m - 1)}, grp="z", _w=("mont_mul", (m - 1) * R256 % m, m - 1, m))
         for x in vs:
             ee = rng.choice([0, 1, 2, 3, m - 2, m - 1, rng.randrange(m)])
             if tag == "modp":
